@@ -140,6 +140,88 @@ func (b *Block) Tx(idx uint64) *Tx {
 	return &b.Txs[len(b.Txs)-1]
 }
 
+// Copies b into dst. After the call dst shares no memory with b.
+func (b *Block) Copy(dst *Block) {
+	dst.Header.Number = b.Header.Number
+	dst.Header.Hash = cloneBytes(b.Header.Hash)
+	dst.Header.Parent = cloneBytes(b.Header.Parent)
+	dst.Header.LogsBloom = cloneBytes(b.Header.LogsBloom)
+	dst.Header.Time = b.Header.Time
+	dst.Txs = nil
+	if b.Txs != nil {
+		dst.Txs = make(Txs, len(b.Txs))
+	}
+	for i := range b.Txs {
+		b.Txs[i].copy(&dst.Txs[i])
+	}
+}
+
+func cloneBytes(b Bytes) Bytes {
+	if b == nil {
+		return nil
+	}
+	return append(Bytes{}, b...)
+}
+
+func (tx *Tx) copy(dst *Tx) {
+	dst.Receipt.Status = tx.Receipt.Status
+	dst.Receipt.GasUsed = tx.Receipt.GasUsed
+	dst.Receipt.EffectiveGasPrice = tx.Receipt.EffectiveGasPrice
+	dst.Receipt.ContractAddress = cloneBytes(tx.Receipt.ContractAddress)
+	dst.Receipt.Logs = nil
+	if tx.Receipt.Logs != nil {
+		dst.Receipt.Logs = make(Logs, len(tx.Receipt.Logs))
+	}
+	for i := range tx.Receipt.Logs {
+		l := &tx.Receipt.Logs[i]
+		dst.Receipt.Logs[i].Idx = l.Idx
+		dst.Receipt.Logs[i].Address = cloneBytes(l.Address)
+		dst.Receipt.Logs[i].Data = cloneBytes(l.Data)
+		if l.Topics != nil {
+			dst.Receipt.Logs[i].Topics = make([]Bytes, len(l.Topics))
+		}
+		for j := range l.Topics {
+			dst.Receipt.Logs[i].Topics[j] = cloneBytes(l.Topics[j])
+		}
+	}
+	dst.Idx = tx.Idx
+	dst.Type = tx.Type
+	dst.ChainID = tx.ChainID
+	dst.Nonce = tx.Nonce
+	dst.GasPrice = tx.GasPrice
+	dst.GasLimit = tx.GasLimit
+	dst.From = cloneBytes(tx.From)
+	dst.To = cloneBytes(tx.To)
+	dst.Value = tx.Value
+	dst.Data = cloneBytes(tx.Data)
+	dst.V, dst.R, dst.S = tx.V, tx.R, tx.S
+	dst.TraceActions = nil
+	if tx.TraceActions != nil {
+		dst.TraceActions = make([]TraceAction, len(tx.TraceActions))
+	}
+	for i := range tx.TraceActions {
+		ta := &tx.TraceActions[i]
+		dst.TraceActions[i].Idx = ta.Idx
+		dst.TraceActions[i].From = cloneBytes(ta.From)
+		dst.TraceActions[i].CallType = ta.CallType
+		dst.TraceActions[i].To = cloneBytes(ta.To)
+		dst.TraceActions[i].Value = ta.Value
+	}
+	dst.AccessList = nil
+	if tx.AccessList != nil {
+		dst.AccessList = make(AccessTuples, len(tx.AccessList))
+	}
+	for i := range tx.AccessList {
+		dst.AccessList[i].Address = tx.AccessList[i].Address
+		dst.AccessList[i].StorageKeys = append([][32]byte(nil), tx.AccessList[i].StorageKeys...)
+	}
+	dst.MaxPriorityFeePerGas = tx.MaxPriorityFeePerGas
+	dst.MaxFeePerGas = tx.MaxFeePerGas
+	dst.PrecompHash = cloneBytes(tx.PrecompHash)
+	dst.rbuf = append([]byte(nil), tx.rbuf...)
+	dst.signer = append([]byte(nil), tx.signer...)
+}
+
 type Log struct {
 	Idx     Uint64  `json:"logIndex"`
 	Address Bytes   `json:"address"`
